@@ -1,2 +1,11 @@
+/-
+  Round-trip lemmas (C07).  The integer and two-digit round trips live with `ParseInt`
+  (`Pa.parseInt64_format64`, `Pa.parseInt32_format02d` in `PaInt`); the rest is split over
+  `RtOffset`, `RtFrac`, `RtFormatS`.
+-/
 import Cctz.Model.Parse
 import Cctz.Spec.FormatSpec
+import Cctz.Proofs.ParseLemmas
+import Cctz.Proofs.RtOffset
+import Cctz.Proofs.RtFrac
+import Cctz.Proofs.RtFormatS
